@@ -48,6 +48,7 @@ type Report struct {
 	Functions   map[string]bool
 	Extra       map[string]interface{}
 	floors      []string
+	evDir       string
 }
 
 func newReport(prop, tier string, seed int64) *Report {
@@ -152,6 +153,9 @@ func (r *Report) finish(verifDir string) int {
 	sort.Slice(viol, func(i, j int) bool { return viol[i].Key < viol[j].Key })
 
 	evDir := filepath.Join(verifDir, "evidence")
+	if r.evDir != "" {
+		evDir = r.evDir
+	}
 	_ = os.MkdirAll(evDir, 0o755)
 	violDir := filepath.Join(evDir, r.Prop+".violations")
 	_ = os.RemoveAll(violDir)
